@@ -513,7 +513,6 @@ func invokeOf(in ssa.Instruction) (recvIface *types.Named, method string, call s
 	return n, cc.Method.Name(), c, true
 }
 
-
 // storedInto lists the values stored into a local allocation (directly or through
 // IndexAddr/FieldAddr of it): the contents a later load may observe.
 func storedInto(al *ssa.Alloc) []ssa.Value {
